@@ -302,6 +302,9 @@ theorem step_sync (refresh : Bool) (sh : Shape) (s : AState) (op : Op) (h : Sync
   | setModel ids =>
     simp only [step, setModel]
     apply update_sync; simp [Sync]
+  | switch =>
+    simp only [step, switchModel, setModel]
+    apply update_sync; simp [Sync]
   | edit i id => simpa [step, edit, Sync] using h
   | assignAll =>
     simp only [step, assignAll]
